@@ -127,7 +127,7 @@ func newWorld(p *c07prog, realtime bool, rng *rand.Rand) *world {
 	rank := map[int]int{}
 	visit := func(ops []opRec) {
 		for _, o := range ops {
-			if o.Op == "dl" {
+			if o.Op == "dl" || o.Op == "expire" {
 				if _, ok := rank[o.K]; !ok {
 					rank[o.K] = len(rank)
 				}
@@ -211,7 +211,7 @@ func (w *world) ready(o opRec) bool {
 	switch o.Op {
 	case "reply":
 		return o.Idr == 0 || w.q[o.Idr].resp != nil
-	case "dl", "recv":
+	case "dl", "recv", "expire":
 		return w.q[o.K].resp != nil
 	case "timer":
 		return w.q[o.K].dlDone
@@ -299,6 +299,12 @@ func (w *world) execOp(o opRec) {
 		} else if qi.body != nil {
 			qi.body()
 		}
+	case "expire": // real-time runs: the deadline passes and the real timer fires right behind it
+		if !w.realtime {
+			die("expire is a real-time operation")
+		}
+		w.execOp(opRec{Op: "dl", K: o.K})
+		w.execOp(opRec{Op: "timer", K: o.K})
 	case "recv":
 		w.rcv = w.drain(o.K)
 	default:
@@ -472,7 +478,7 @@ func runC07(inputs []json.RawMessage, tr *tracer) summary {
 			serf.VerifYield = func(string) {}
 			serf.VerifYieldBlocked = func(string) {}
 			tr.flush()
-			tr.reset(p.ID, map[string]interface{}{"prog": [][]opRec{}, "pid": p.ID})
+			tr.reset(*fIDBase+p.ID, map[string]interface{}{"prog": [][]opRec{}, "pid": p.ID})
 			for _, o := range p.Pre {
 				w.macro(tr, o)
 				if w.overtaken {
@@ -498,7 +504,7 @@ func runC07(inputs []json.RawMessage, tr *tracer) summary {
 			w := newWorld(&p, false, rng)
 			serf.VerifYield = s.Yield
 			serf.VerifYieldBlocked = s.YieldBlocked
-			tr.reset(traceID, map[string]interface{}{"prog": p.Threads, "pid": p.ID})
+			tr.reset(*fIDBase+traceID, map[string]interface{}{"prog": p.Threads, "pid": p.ID})
 			traceID++
 			for _, o := range p.Pre {
 				w.macro(tr, o)
